@@ -126,6 +126,18 @@ def _apply(db, op, nm, step):
         t2.schema = 'store'
 
 
+def _track_indexes(idx, op):
+    """independent record of the index list of the first table (labels in order), updated from the edit's intent"""
+    if op == 'remove_index':
+        if idx:
+            idx.pop(0)
+    elif op == 'add_twin_index':
+        idx.append('ix1')
+    elif op == 'remove_last_index':
+        if idx:
+            idx.pop()
+
+
 def _track(intent, op):
     if op == 'flip_ref_kind':
         intent[0][0] = '<'
@@ -157,6 +169,7 @@ def edits(D, first=-1, K=1, thorough_elements=False):
         nm = text_of(a, 'n', K)
         seq = []
         intent = [list(x) for x in REF0]
+        idx = ['ix1', 'hash']
         for step in range(D):
             code = first if (step == 0 and first >= 0) else a[f'o{step}']
             seq.append(EDITS[code])
@@ -164,7 +177,9 @@ def edits(D, first=-1, K=1, thorough_elements=False):
                 db.sql                   # a rendering between edits must leave nothing behind (cached orders, join tables ...)
             _apply(db, EDITS[code], nm, step)
             _track(intent, EDITS[code])
+            _track_indexes(idx, EDITS[code])
         db._vp_intent = intent
+        db._vp_idx = idx
         return db, seq
 
     def body(a):
@@ -177,6 +192,8 @@ def edits(D, first=-1, K=1, thorough_elements=False):
         for r, (kind, inl) in zip(db.refs, db._vp_intent):
             if r.type != kind or bool(r.inline) != (inl and kind != '<>'):
                 return 'a reference does not show the kind / inline-ness it was last given'
+        if [ix.name or ix.type for ix in db.tables[0].indexes] != db._vp_idx:
+            return 'the index list of a table is not what the add / delete edits intended (wrong index removed, or order changed)'
         try:
             if db.dbml != fresh.dbml:
                 return '.dbml of the edited database differs from that of a freshly built database with the same content'
